@@ -237,6 +237,9 @@ V("c15-caller-registry-dropped", "C15", "break", "R15.5", "caller header registr
 V("c15-benign-check-after-alg", "C15", "benign", "", "check_header moved after get_alg in verify_signature",
   "rfc7515/json.py", "    headers = member.headers()\n    registry.check_header(headers)\n    alg = registry.get_alg(headers[\"alg\"])\n    key = find_key(member)\n    key.check_use(\"sig\")\n    alg.check_key_type(key)\n    if \"protected\" in signature:",
   "    headers = member.headers()\n    alg = registry.get_alg(headers[\"alg\"])\n    registry.check_header(headers)\n    key = find_key(member)\n    key.check_use(\"sig\")\n    alg.check_key_type(key)\n    if \"protected\" in signature:")
+VARIANTS[-1]["also"] = ["C16"]  # moving get_alg first makes a missing alg a KeyError: benign for C15 only
+V("c16-get-alg-before-check-header", "C16", "break", "E2c", "verify_signature reads headers[\"alg\"] before check_header established its presence",
+  "rfc7515/json.py", "    registry.check_header(headers)\n    alg = registry.get_alg(headers[\"alg\"])\n    key = find_key(member)\n    key.check_use(\"sig\")\n    alg.check_key_type(key)\n    if \"protected\" in signature:", "    alg = registry.get_alg(headers[\"alg\"])\n    registry.check_header(headers)\n    key = find_key(member)\n    key.check_use(\"sig\")\n    alg.check_key_type(key)\n    if \"protected\" in signature:")
 V("c15-benign-supported-loop", "C15", "benign", "", "check_supported_header as a loop",
   "registry.py", "    allowed_keys = set(registry.keys())\n    unsupported_keys = set(header.keys()) - allowed_keys\n    if unsupported_keys:\n        raise ValueError(f'Unsupported {unsupported_keys} in header')",
   "    for name in header:\n        if name not in registry:\n            raise ValueError(f'Unsupported {name} in header')")
@@ -608,3 +611,11 @@ V("c19-base64-elsewhere", "C19", "break", "R19.1", "okp key import decodes with 
   "rfc8037/okp_key.py", "        x_bytes = urlsafe_b64decode(to_bytes(obj[\"x\"]))\n        return crv_key.from_public_bytes(x_bytes)", "        import base64\n        x_bytes = base64.urlsafe_b64decode(to_bytes(obj[\"x\"]) + b\"==\")\n        return crv_key.from_public_bytes(x_bytes)")
 V("c19-benign-from-bytes", "C19", "benign", "", "base64_to_int through int.from_bytes",
   "util.py", "    buf = struct.unpack(\"%sB\" % len(data), data)\n    return int(\"\".join([\"%02x\" % byte for byte in buf]), 16)", "    return int.from_bytes(data, \"big\")")
+V("c15-allowed-registry-class-cache", "C15", "break", "R15.2", "merged registry memoised on the class by alg name (shared between registries with different caller tables)",
+  "rfc7516/registry.py", "                allowed_registry = self.header_registry.copy()\n                allowed_registry.update(alg.more_header_registry)\n",
+  "                allowed_registry = JWERegistry.__dict__.setdefault(\"_c\", {}).get(alg.name) if False else getattr(JWERegistry, \"_cache\", {}).get(alg.name)\n                if allowed_registry is None:\n                    allowed_registry = self.header_registry.copy()\n                    allowed_registry.update(alg.more_header_registry)\n                    JWERegistry._cache = {**getattr(JWERegistry, \"_cache\", {}), alg.name: allowed_registry}\n")
+V("c15-benign-allowed-registry-literal-union", "C15", "benign", "", "merged registry built as a dict literal union",
+  "rfc7516/registry.py", "                allowed_registry = self.header_registry.copy()\n                allowed_registry.update(alg.more_header_registry)\n",
+  "                allowed_registry = {**self.header_registry, **alg.more_header_registry}\n")
+V("c15-benign-allowed-registry-dict-ctor", "C15", "benign", "", "merged registry copy made with dict()",
+  "rfc7516/registry.py", "                allowed_registry = self.header_registry.copy()\n", "                allowed_registry = dict(self.header_registry)\n")
